@@ -9,6 +9,7 @@ points agree on the position of the same binding.
 import ast
 import io
 import os
+import re
 import tokenize
 import itertools
 import collections
@@ -269,19 +270,77 @@ PROJECT_TEXTS = [
 ]
 
 
-def unit_project_positions(_):
-    """go-to-definition through imports: every result must name an existing line of an existing file
-    (start of the file for a module), and an identifier token when it is a binding"""
+SELF_TEXTS = [
+    # the edited file imports itself: the definition comes from the copy on disk (parsed without the cursor mark)
+    'import selfmod; print(selfmod.x); x = 1\n',
+    'import selfmod\nprint(selfmod.x, selfmod.fn); x = 1\ndef fn(): pass\n',
+    'from selfmod import x as y; print(y); x = 1\n',
+    'import selfmod as s\nclass K:\n    a = 1\nprint(s.K.a); K.b = 2; print(s.K.b)\n',
+]
+
+
+def _project_texts(part):
     from . import namecheck as nc
-    part = Part()
     Pg = Project([nc.PROJECT_DIR])
     fn = os.path.join(nc.PROJECT_DIR, 'x.py')
     for text in PROJECT_TEXTS:
+        yield Pg, fn, text
+    import shutil
+    import tempfile
+    d = tempfile.mkdtemp(prefix='c11_self_')
+    try:
+        fn = os.path.join(d, 'selfmod.py')
+        for text in SELF_TEXTS:
+            with open(fn, 'w') as f:
+                f.write(text)
+            yield Project([d]), fn, text
+    finally:
+        shutil.rmtree(d, ignore_errors=True)
+
+
+_ALIASES = {}
+
+
+def aliases(project, text):
+    """(original, alias) pairs of every `import a as b` / `from m import a as b` in the buffer and the project's files:
+    go-to-definition follows an alias to the original binding, whose identifier is the original name"""
+    out = set()
+    key = tuple(project.sources)
+    if key not in _ALIASES:
+        acc = set()
+        for root in project.sources:
+            for dp, _dn, fns in os.walk(root):
+                for f in fns:
+                    if f.endswith('.py'):
+                        try:
+                            acc |= _alias_pairs(open(os.path.join(dp, f), encoding='utf-8').read())
+                        except (SyntaxError, ValueError, OSError):
+                            pass
+        _ALIASES[key] = acc
+    return _ALIASES[key] | _alias_pairs(text)
+
+
+def _alias_pairs(text):
+    out = set()
+    for n in ast.walk(ast.parse(text)):
+        if isinstance(n, (ast.Import, ast.ImportFrom)):
+            for a in n.names:
+                if a.asname:
+                    out.add((a.name.split('.')[-1], a.asname))
+    return out
+
+
+def unit_project_positions(_):
+    """go-to-definition through imports: every result must name an existing line of an existing file, and the
+    identifier asked for (or the start of the file, for a module) must be there"""
+    part = Part()
+    for Pg, fn, text in _project_texts(part):
         part.count('evaluations')
         tree = ast.parse(text)
         for n in ast.walk(tree):
             if isinstance(n, (ast.Name, ast.Attribute)) and isinstance(n.ctx, ast.Load):
                 pos = (n.end_lineno, n.end_col_offset)
+                ident = n.id if isinstance(n, ast.Name) else n.attr
                 try:
                     locs = location(Pg, text, pos, fn)
                 except Exception:
@@ -294,13 +353,27 @@ def unit_project_positions(_):
                     part.count('location_positions')
                     f, (ln, col) = l.get('file'), tuple(l['loc'])
                     src = text if f == fn else (open(f, encoding='utf-8').read() if f and os.path.exists(f) else None)
+                    w = {'kind': 'project-text', 'text': text}
                     if src is None:
-                        part.violation('file-does-not-exist:location:through-import', 'location() at %s in %r names the file %r' % (pos, text, f), {'kind': 'project-text', 'text': text})
+                        part.violation('file-does-not-exist:location:through-import', 'location() at %s in %r names the file %r' % (pos, text, f), w)
                         continue
-                    nlines = len(src.split('\n'))
-                    if not (1 <= ln <= nlines) or col < 0:
+                    lines = src.split('\n')
+                    if not (1 <= ln <= len(lines)) or col < 0:
                         part.violation('line-outside-file:location:through-import', 'location() at %s in %r reports (%d, %d) in %s which has %d lines' % (
-                            pos, text, ln, col, os.path.basename(f), nlines), {'kind': 'project-text', 'text': text})
+                            pos, text, ln, col, os.path.basename(f), len(lines)), w)
+                        continue
+                    if (ln, col) == (1, 0):
+                        continue               # a module: start of its file
+                    rest = lines[ln - 1][col:]
+                    m = re.match(r'[^\W\d]\w*', rest)
+                    if rest.startswith('*'):
+                        continue               # a name bound by a star import: the statement has no identifier for it
+                    if not m:
+                        part.violation('not-an-identifier:location:through-import', 'location() at %s in %r reports (%d, %d) in %s, where the text is %r' % (
+                            pos, text, ln, col, os.path.basename(f), rest[:20]), w)
+                    elif m.group(0) != ident and (m.group(0), ident) not in aliases(Pg, text):
+                        part.violation('other-identifier:location:through-import', 'location() for %r at %s in %r reports (%d, %d) in %s, where the identifier is %r' % (
+                            ident, pos, text, ln, col, os.path.basename(f), m.group(0)), w)
     part.outcome('project-positions')
     return part
 
